@@ -163,6 +163,47 @@ def eval_cli_cases(ctx, texts, shards=8):
     return codes
 
 
+def g_text_case(rec):
+    """CorrCliText.text_case of a --print run: instance, input document, rooms argument, assignment of the output file, stdout"""
+    import cde
+    m = rec["meta"]
+    ra = rec.get("rooms_arg")
+    if ra is None:
+        g_r = "(None, None)"
+    elif ra[0] == "list":
+        g_r = "(Some [" + "; ".join("%d%%nat" % r for r in ra[1]) + "], None)"
+    else:
+        g_r = "(None, Some [" + "; ".join("(%s, %d%%nat, %d%%nat)" % (cde.cstr(k["name"]), k["capacity"], k["quantity"]) for k in ra[1]) + "])"
+    a = rec["out"][0]
+    return "(%s, %s, %s, %s, [%s], %s)" % (m["g_courses"], m["g_parts"], cde.coq(json.load(open(m["file"], encoding="utf-8"))), g_r,
+                                           "; ".join(g_optnat(x) for x in a), cde.cstr(rec["run"]["stdout"]))
+
+
+def eval_text_cases(ctx, texts, shards=8):
+    d = os.path.join(ctx.work, "cli")
+    paths = []
+    for si in range(shards):
+        ch = texts[si::shards]
+        if not ch:
+            continue
+        p = os.path.join(d, "cases_clitext_%02d.v" % si)
+        with open(p, "w", encoding="utf-8") as f:
+            f.write("From Coq Require Import List NArith ZArith String.\nImport ListNotations.\nRequire Import Json CorrNode CorrCliText.\n"
+                    "Open Scope string_scope.\nOpen Scope list_scope.\n")
+            f.write("Definition cases : list text_case := [\n  " + ";\n  ".join(ch) + "\n].\nEval vm_compute in map check_text cases.\n")
+        paths.append((si, p))
+    res = vlib.run_shards([p for _, p in paths])
+    codes = [None] * len(texts)
+    for (si, _), blk in zip(paths, res):
+        flat = [c for b in blk for c in b]
+        idxs = list(range(si, len(texts), shards))
+        if len(flat) != len(idxs):
+            raise RuntimeError("cli text case count mismatch")
+        for i, c in zip(idxs, flat):
+            codes[i] = c
+    return codes
+
+
 def parse_output_file(path):
     """returns (assignment, score, qmax, qbits, qmaxbits) or a string (why it is not a well-formed simple-format output)"""
     try:
@@ -193,17 +234,32 @@ def run_cli_matrix(ctx, binpath, metas, variants, jobs=16):
         rooms = m["inst"]["rooms"]
         for vi, v in enumerate(variants):
             args = ["--num-threads", v["threads"]]
+            rooms_arg = None
             use_rooms = rooms is not None and v.get("rooms") is not None
             if use_rooms and v["rooms"] == "list":
                 if not rooms:
                     continue          # an empty --rooms string is a parse error, not a valid room list
                 args += ["--rooms", ",".join(str(r) for r in rooms)]
+                rooms_arg = ("list", list(rooms))
             elif use_rooms and v["rooms"] == "file":
                 rf = os.path.join(d, "rooms_%04d.json" % m["id"])
                 kinds = {}
                 for r in rooms:
                     kinds[r] = kinds.get(r, 0) + 1
-                json.dump([{"name": "R%d" % cap, "capacity": cap, "quantity": q} for cap, q in sorted(kinds.items())], open(rf, "w"))
+                # one kind per capacity; on every other instance a capacity with several rooms is split into two kinds, a kind without
+                # rooms is added, the file order is not the capacity order and a name is not ASCII
+                klist = []
+                fancy = m["id"] % 2 == 1
+                for cap, q in sorted(kinds.items(), reverse=(m["id"] % 4 == 3)):
+                    if fancy and q >= 2:
+                        klist.append({"name": "R%da" % cap, "capacity": cap, "quantity": 1})
+                        klist.append({"name": "Saal %d\u00df" % cap, "capacity": cap, "quantity": q - 1})
+                    else:
+                        klist.append({"name": "R%d" % cap, "capacity": cap, "quantity": q})
+                    if fancy and cap % 3 == 0:
+                        klist.append({"name": "leer%d" % cap, "capacity": cap, "quantity": 0})
+                json.dump(klist, open(rf, "w"))
+                rooms_arg = ("file", klist)
                 args += ["--rooms-file", rf]
             elif rooms is not None:
                 continue              # instances generated with rooms are only run with their rooms
@@ -221,12 +277,13 @@ def run_cli_matrix(ctx, binpath, metas, variants, jobs=16):
                         json.dump({"format": "X-courseassignment-simple", "version": "1.1", "assignment": [None] * 400,
                                    "quality": {"solution_score": 1, "theoretical_max_score": 1, "solution_quality": 0.0, "theoretical_max_quality": 0.0}}, f)
                 args.append(outp)
-            tasks.append((m, v, args, outp))
+            tasks.append((m, v, args, outp, rooms_arg))
 
     def work(t):
-        m, v, args, outp = t
+        m, v, args, outp, rooms_arg = t
         r = run_bin(binpath, args)
-        rec = {"meta": m, "variant": v, "args": [str(a) for a in args], "run": r, "outpath": outp, "out": None, "listing": None, "rooms_shown": None}
+        rec = {"meta": m, "variant": v, "args": [str(a) for a in args], "run": r, "outpath": outp, "out": None, "listing": None, "rooms_shown": None,
+               "rooms_arg": rooms_arg}
         if outp and os.path.exists(outp):
             rec["out"] = parse_output_file(outp)
         if v.get("print") and r["rc"] == 0:
